@@ -2,7 +2,7 @@
 From Coq Require Import List ZArith Bool Lia Arith.
 From MomoCommon Require Import GenPrelude.
 From C06 Require Import Spec SpecProofs WrapOrdered GenPrims GenRefine.
-From C06 Require Gen_MapAt Gen_SetEqr Gen_UMapCreate Gen_SetCreate Gen_Vector Gen_MapIoa.
+From C06 Require Gen_MapAt Gen_SetEqr Gen_UMapCreate Gen_SetCreate Gen_Vector Gen_MapIoa Gen_MapAssign Gen_UMapAssign Gen_SetAssign Gen_USetAssign.
 Import ListNotations.
 Local Open Scope Z_scope.
 
@@ -100,3 +100,27 @@ Lemma gen_map_insert_or_assign_spec (emplace_ : Z -> Z -> Z -> Z * bool) (ev_ass
   Gen_MapIoa.insert_or_assign emplace_ ev_assign st h k v =
   (emplace_ h k v, if snd (emplace_ h k v) then st else ev_assign st (fst (emplace_ h k v)) v).
 Proof. unfold Gen_MapIoa.insert_or_assign, it_id. destruct (snd (emplace_ h k v)); reflexivity. Qed.
+
+(* ---------- operator=(std::initializer_list) of map/multimap (ptAssign), unordered_map, set/multiset, unordered_set as regenerated:
+   the replacement nested container is built with the traits (comparator / hasher / key_equal STATE) of the container being
+   assigned to and with its allocator - so a stateful functor in a non-default state survives `c = {...}` (wave-2 seed a rebuilt
+   the map through a default-constructed comparator) ---------- *)
+Lemma gen_map_assign_shape (make_nested : Z -> Z -> Z) (traits_of : Z -> Z) alloc_this old values :
+  Gen_MapAssign.ptAssign make_nested traits_of alloc_this old values = make_nested (traits_of old) alloc_this.
+Proof. reflexivity. Qed.
+Lemma gen_set_assign_shape (make_nested_il : Z -> Z -> Z -> Z) (traits_of : Z -> Z) alloc_this old values :
+  Gen_SetAssign.assign_il make_nested_il traits_of alloc_this old values = make_nested_il values (traits_of old) alloc_this.
+Proof. reflexivity. Qed.
+(* for every nested-container constructor that stores the traits / allocator it is given: functor state and allocator are kept *)
+Lemma gen_map_assign_keeps_functor_state (make_nested : Z -> Z -> Z) (traits_of alloc_of : Z -> Z) alloc_this old values :
+  (forall t a, traits_of (make_nested t a) = t) -> (forall t a, alloc_of (make_nested t a) = a) ->
+  traits_of (Gen_MapAssign.ptAssign make_nested traits_of alloc_this old values) = traits_of old /\
+  alloc_of (Gen_MapAssign.ptAssign make_nested traits_of alloc_this old values) = alloc_this.
+Proof. intros Ht Ha. rewrite gen_map_assign_shape. split; [apply Ht|apply Ha]. Qed.
+Lemma gen_set_assign_keeps_functor_state (make_nested_il : Z -> Z -> Z -> Z) (traits_of alloc_of : Z -> Z) alloc_this old values :
+  (forall v t a, traits_of (make_nested_il v t a) = t) -> (forall v t a, alloc_of (make_nested_il v t a) = a) ->
+  traits_of (Gen_SetAssign.assign_il make_nested_il traits_of alloc_this old values) = traits_of old /\
+  alloc_of (Gen_SetAssign.assign_il make_nested_il traits_of alloc_this old values) = alloc_this.
+Proof. intros Ht Ha. rewrite gen_set_assign_shape. split; [apply Ht|apply Ha]. Qed.
+Lemma assign_il_same_code : Gen_UMapAssign.assign_il = Gen_MapAssign.ptAssign /\ Gen_USetAssign.assign_il = Gen_SetAssign.assign_il.
+Proof. split; reflexivity. Qed.
